@@ -185,3 +185,136 @@ DESCRIPTION = {
 ASSUMPTIONS = ["a Formatter is (options, sink): equal probe traces and equal sink bytes mean equal output",
                "the flags word (fill, alignment, sign, `0`, hex-debug, presence of width / precision) is one of 6 concrete combinations per "
                "harness, `#` off; width and precision values are symbolic u16"]
+
+
+# ------------------------------------------------------------------------------------------------------------------
+# pretty (`{:#?}`) half: engine L (llsym) on vf/llsym/rust/probe_dbg.rs
+
+PRETTY_SHAPES = ["T1(Nl)", "T2(Nl, Nl)", "N2 { a, b }", "Outer(T1, Nl)", "OuterN { t: T2, n: N2 }", "E::V(Nl)", "E::W { x }", "E::X(Nl, Nl)", "E::U",
+                 "Skip(Nl, #[debug(skip)] Nl)", "SkipAll(#[debug(skip)] Nl)", "FieldFmt(#[debug(\"<{_0:?}>\")] Nl, Nl)", "Unit", "Empty()"]
+PRETTY_FMTS = ["{:#?}", "{:#x?}", "{:#w$?}", "{:#.p$?}", "{:*<+#w$.p$X?}", "{:?}", "{:#06?}"]
+# shapes that go through derive_more's own DebugTuple (src/fmt.rs) somewhere, and format selectors that carry options besides `#`
+TUPLE_SHAPES = {0, 1, 3, 4, 5, 7, 9, 11}
+OPTION_FMTS = {2, 3, 4, 6}
+PRETTY_L = {"quick": 4, "thorough": 8}
+
+
+def extra_pass(tier, kf):
+    """Returns dict(violations=[(key, path, text)], known=[lines], inconclusive=[...], coverage={...})."""
+    import json
+    import multiprocessing
+    import os
+    import time
+    import z3
+    from .. import common
+    from ..llsym import build, driver, native
+    from ..llsym import engine as E
+    out = {"violations": [], "known": [], "inconclusive": [], "coverage": {}}
+    t0 = time.time()
+    scratch = common.scratch_dir("C06-pretty")
+    try:
+        b = build.build_dbg_wrapper(scratch)
+    except RuntimeError as e:
+        out["inconclusive"].append("pretty-half wrapper does not build: " + str(e)[-800:])
+        return out
+    mod = E.Module(b["ll"])
+    L = PRETTY_L[tier]
+    n = 5 + L
+    outdir = os.path.join(scratch, "paths")
+    os.makedirs(outdir)
+    ex = driver.ParallelExec(mod, outdir, multiprocessing.Semaphore(common.NCPU - 1), max_steps=3000000)
+    bs = [z3.BitVec("r%d" % i, 8) for i in range(n)]
+
+    def setup(ex, st):
+        buf = st.alloc(n, "input")
+        for i in range(n):
+            buf.data[i] = bs[i]
+        dg = st.alloc(64, "digest")
+        fr = st.frames[0]
+        names = [p[1] for p in fr.fn.params]
+        fr.regs[names[0]] = buf.base
+        fr.regs[names[1]] = n
+        fr.regs[names[2]] = dg.base
+        cs = [z3.ULT(bs[0], len(PRETTY_SHAPES)), z3.ULT(bs[1], len(PRETTY_FMTS)), z3.ULE(bs[2], L), z3.ULE(bs[3], 8), z3.ULE(bs[4], 8)]
+        for x in bs[5:]:
+            cs.append(z3.Or(x == ord("a"), x == ord("b"), x == 10))
+        st.pc.append(z3.And(*cs))
+
+    def describe(kind, detail, st, m):
+        inp = [m.eval(x, model_completion=True).as_long() for x in bs] if m is not None else None
+        rec = {"kind": kind, "input": inp}
+        if kind == "ret":
+            rv = detail
+            if E.is_sym(rv):
+                rv = m.eval(rv, model_completion=True).as_long()
+            rec["code"] = rv
+        else:
+            rec["detail"] = str(detail)[:200]
+        return rec
+    ex.describe = describe
+    ok = ex.run_parallel("@probe", setup)
+    recs, stats, solver_s = driver.collect(outdir)
+    if not ok:
+        out["inconclusive"].append("a worker of the pretty-half exploration died")
+    rets = [r for r in recs if r["kind"] == "ret"]
+    for r in recs:
+        if r["kind"] != "ret":
+            out["inconclusive"].append("pretty-half path ended %s: %s" % (r["kind"], r.get("detail")))
+            break
+    if any(r["code"] == 3 for r in rets):
+        out["inconclusive"].append("HARNESS: pretty-half sink too small")
+    # native cross-check of every path (return code must agree)
+    nat = native.run_native(b["so"], [bytes(r["input"]) for r in rets])
+    mism = sum(1 for r, x in zip(rets, nat) if x.get("code") != r["code"])
+    if mism:
+        out["inconclusive"].append("llsym and the native build disagree on %d of %d pretty-half paths" % (mism, len(rets)))
+    groups = {}
+    for r in rets:
+        if r["code"] in (1, 2):
+            shape, sel = r["input"][0], r["input"][1]
+            if r["code"] == 2 and shape in TUPLE_SHAPES and sel in OPTION_FMTS:
+                key = "pretty/2/tuple-drops-caller-options"
+            else:
+                key = "pretty/%d/%s/%s" % (r["code"], PRETTY_SHAPES[shape].split("(")[0].split(" ")[0], PRETTY_FMTS[sel])
+            groups.setdefault(key, []).append(r)
+    replay_dir = os.path.join(common.REPLAY_DIR, "C06")
+    os.makedirs(replay_dir, exist_ok=True)
+    for key, rs in sorted(groups.items()):
+        text = kf.match("C06", key)
+        if text is not None:
+            out["known"].append("KNOWN-FINDING: property=C06 key=%s %s (%d paths)" % (key, text, len(rs)))
+            continue
+        r = rs[0]
+        path = os.path.join(replay_dir, "pretty_%s.json" % "".join(c if c.isalnum() else "_" for c in key)[:60])
+        json.dump({"property": "C06", "class": key, "record": r["input"], "shape": PRETTY_SHAPES[r["input"][0]], "format": PRETTY_FMTS[r["input"][1]],
+                   "split": r["input"][2], "w": r["input"][3], "p": r["input"][4], "field_content": bytes(r["input"][5:]).decode(),
+                   "meaning": "output bytes differ from std's" if r["code"] == 1 else "same bytes, but a field saw different formatter options than under std's Debug",
+                   "paths_in_class": len(rs)}, open(path, "w"), indent=1)
+        out["violations"].append((key, path, "pretty mode: %s %s differs from std (%d paths)" % (PRETTY_SHAPES[r["input"][0]], PRETTY_FMTS[r["input"][1]], len(rs))))
+    out["coverage"] = {
+        "pretty_half": {
+            "engine": "llsym over the LLVM IR of vf/llsym/rust/probe_dbg.rs (derive_more::Debug expansions + src/fmt.rs DebugTuple/Padded vs std's derive and builders)",
+            "shapes": PRETTY_SHAPES, "formats": PRETTY_FMTS,
+            "symbolic": "shape, format selector, field content (%d bytes over {a, b, \\n}, split between two fields), chunk split point, width and precision (0..=8)" % L,
+            "paths": stats.get("paths", 0), "solver_queries": stats.get("queries", 0), "solver_s": round(solver_s, 1), "instructions": stats.get("instrs", 0),
+            "paths_equal": len([r for r in rets if r["code"] == 0]), "paths_differ": len([r for r in rets if r["code"] in (1, 2)]),
+            "native_cross_check": {"paths": len(rets), "mismatches": mism}, "wall_s": round(time.time() - t0, 1),
+            "samples": [{"record": r["input"], "shape": PRETTY_SHAPES[r["input"][0]], "format": PRETTY_FMTS[r["input"][1]], "verdict": r["code"]} for r in rets[:3]],
+        }
+    }
+    return out
+
+
+def replay_json(path):
+    """./check C06 --replay <pretty_*.json>: rebuild the wrapper from the working tree and run the record natively"""
+    import json
+    from .. import common
+    from ..llsym import build, native
+    j = json.load(open(path))
+    b = build.build_dbg_wrapper(common.scratch_dir("C06-replay"))
+    out = native.run_native(b["so"], [bytes(j["record"])])[0]
+    print("%s with %s -> native %s" % (j["shape"], j["format"], out))
+    if out.get("abort") or out.get("code") in (1, 2):
+        print("VIOLATION property=C06 replay=%s" % path)
+        return common.EXIT_VIOLATION
+    return common.EXIT_OK
